@@ -153,4 +153,31 @@ PROPS = {
         ],
         "probes_expected": {"quick": ["arrival-order-distinct", "walk-permuted-nontrivially"], "thorough": ["arrival-order-distinct", "walk-permuted-nontrivially"]},
     },
+    "C08": {
+        "engine": "digestsim",
+        "level": "exploration",
+        "runs": {"quick": 800, "thorough": 150000},
+        "max_wall_s": {"quick": 0, "thorough": 1500},
+        "shrink_s": {"quick": 45, "thorough": 300},
+        "recheck_every": 40,
+        "min_chunk": 8,
+        "rule": ("one evaluation = one generated set of 1-3 modules (paths with spaces, unicode and dots, empty files, LICENSE and every doc-file "
+                 "variant, junk non-module files, inter-module imports) whose last module is digested under 3-6 tape-chosen configurations "
+                 "(backend memory / disk / tar round trip / zip round trip, walk permutation at every bucket, module name present or absent, "
+                 "targeted or not, module listing order, injected get/read/walk errors) and compared with an independent implementation of the "
+                 "published b5 construction; then through the module cache (directory and tar layouts) under a key pinned to the reference "
+                 "digest; then after 2-4 stored-content mutations (flip, truncate, append, delete, rename, add) of module and non-module files "
+                 "and a change inside a dependency; non-trivial = every run (each has >= 3 configurations); distinct = distinct trace hash"),
+        "real": ["bufmodule digest code (b5) incl. module-file matcher and doc-file precedence", "bufmodule ModuleSetBuilder / ModuleDeps", "bufcas manifest / file set / digest",
+                 "storagemem", "storageos", "storagearchive", "bufmodulestore (as a backend)", "bufmodule.ModuleData digest verification"],
+        "stubbed": ["disk interposition: yielding wrapper with walk permutation and injected get/read/walk errors"],
+        "assumptions": COMMON_ASSUMPTIONS + [
+            "the reference is written from the published construction with crypto/sha3 from the Go standard library",
+            "Stat errors are not injected: buf probes for doc files with Stat and, by API design, cannot tell a failed Stat from an absent file",
+            "Digest() is not called from concurrent tasks: it is a sync.OnceValues and parking inside it would block the others non-durably",
+            "only b5 has a reference; input-universal clauses are sampled as workload, the deciding dimensions are backend, enumeration order, read faults and stored corruption",
+        ],
+        "probes_expected": {"quick": ["walk-permuted-nontrivially", "digest-failed-under-fault", "mutation-changed-digest", "mutation-left-digest", "cache-backend-verified", "dependency-change-propagated"],
+                            "thorough": ["walk-permuted-nontrivially", "digest-failed-under-fault", "mutation-changed-digest", "mutation-left-digest", "cache-backend-verified", "dependency-change-propagated"]},
+    },
 }
